@@ -60,6 +60,9 @@ pub enum Behaviour {
     InjectSameSegment(usize),
     /// success, then forged cleartext in a later segment before the handshake
     InjectDelayed,
+    /// forged cleartext responses (for the IDs the client will use inside TLS) BEFORE the StartTLS success, in
+    /// the same segment: they match nothing when they arrive and must be gone when those IDs come into use
+    InjectBeforeSuccess(usize),
 }
 
 #[derive(Clone, Debug)]
@@ -250,6 +253,11 @@ async fn handle(mut s: TcpStream, setup: Setup, tap: Arc<Mutex<Tap>>) {
                 v.extend_from_slice(&forged(*n));
                 let _ = s.write_all(&v).await;
             }
+            Behaviour::InjectBeforeSuccess(n) => {
+                let mut v = forged(*n);
+                v.extend_from_slice(&ext_ok(0));
+                let _ = s.write_all(&v).await;
+            }
             Behaviour::InjectDelayed => {
                 let _ = s.write_all(&ext_ok(0)).await;
                 let _ = s.flush().await;
@@ -434,6 +442,7 @@ fn matrix(rng: &mut Rng, reps: usize) -> Vec<Setup> {
                     Behaviour::InjectSameSegment(1 + rng.usize(64)),
                     Behaviour::InjectSameSegment(64),
                     Behaviour::InjectDelayed,
+                    Behaviour::InjectBeforeSuccess(1 + rng.usize(8)),
                 ];
                 for b in bs.drain(..) {
                     let ip_only = b == Behaviour::Tls(Cert::IpOnly);
@@ -523,7 +532,7 @@ fn judge(setup: &Setup, obs: &Obs, tap: &Tap, rep: &mut Report) {
     let must_fail = match &setup.behaviour {
         Behaviour::Refuse(_) | Behaviour::RefuseThenTls(_) | Behaviour::RefuseNamedThenTls(..) | Behaviour::UnsolicitedSuccessThenRefuseThenTls(_) | Behaviour::Garbage | Behaviour::WrongResponse | Behaviour::MalformedThenTls(_) | Behaviour::Close | Behaviour::Silent(_) => true,
         Behaviour::Tls(c) => !trusted_for_host(*c) && !setup.no_verify,
-        Behaviour::InjectSameSegment(_) | Behaviour::InjectDelayed => false,
+        Behaviour::InjectSameSegment(_) | Behaviour::InjectDelayed | Behaviour::InjectBeforeSuccess(_) => false,
     };
     let must_succeed = matches!(&setup.behaviour, Behaviour::Tls(c) if trusted_for_host(*c) || setup.no_verify);
     let bk = match &setup.behaviour {
@@ -545,6 +554,7 @@ fn judge(setup: &Setup, obs: &Obs, tap: &Tap, rep: &mut Report) {
         Behaviour::Silent(true) => "server-silent-until-the-caller-gives-up".into(),
         Behaviour::InjectSameSegment(_) => "cleartext-injected-with-the-starttls-response".into(),
         Behaviour::InjectDelayed => "cleartext-injected-before-the-handshake".into(),
+        Behaviour::InjectBeforeSuccess(_) => "cleartext-injected-ahead-of-the-starttls-response".into(),
     };
     if must_fail && obs.establish == "Ok" {
         rep.violation(format!("C17:{}:usable-handle-returned-although:{}{}", mode, bk, if setup.no_verify { "" } else { ":verification-on" }), desc.clone(), replay.clone());
